@@ -295,7 +295,13 @@ impl fmt::Debug for VBEModeInfo {
             .field("number_of_planes", &self.number_of_planes)
             .field("bpp", &self.bpp)
             .field("number_of_banks", &self.number_of_banks)
-            .field("memory_model", &self.memory_model)
+            .field("memory_model", &{
+                // The tag memory may hold a byte that is no declared
+                // `VBEMemoryModel`. Formatting that through the enum is
+                // undefined behavior (and crashes), hence go via the raw byte.
+                let raw = unsafe { core::ptr::addr_of!(self.memory_model).cast::<u8>().read() };
+                RawMemoryModel(raw)
+            })
             .field("bank_size", &self.bank_size)
             .field("number_of_image_pages", &self.number_of_image_pages)
             .field("red_field", &self.red_field)
@@ -307,6 +313,25 @@ impl fmt::Debug for VBEModeInfo {
             .field("offscreen_memory_offset", &{ self.offscreen_memory_offset })
             .field("offscreen_memory_size", &{ self.offscreen_memory_size })
             .finish()
+    }
+}
+
+/// Helper to debug-format the raw byte of a [`VBEMemoryModel`] field.
+struct RawMemoryModel(u8);
+
+impl fmt::Debug for RawMemoryModel {
+    fn fmt(&self, f: &mut fmt::Formatter) -> fmt::Result {
+        match self.0 {
+            0x00 => fmt::Debug::fmt(&VBEMemoryModel::Text, f),
+            0x01 => fmt::Debug::fmt(&VBEMemoryModel::CGAGraphics, f),
+            0x02 => fmt::Debug::fmt(&VBEMemoryModel::HerculesGraphics, f),
+            0x03 => fmt::Debug::fmt(&VBEMemoryModel::Planar, f),
+            0x04 => fmt::Debug::fmt(&VBEMemoryModel::PackedPixel, f),
+            0x05 => fmt::Debug::fmt(&VBEMemoryModel::Unchained, f),
+            0x06 => fmt::Debug::fmt(&VBEMemoryModel::DirectColor, f),
+            0x07 => fmt::Debug::fmt(&VBEMemoryModel::YUV, f),
+            raw => write!(f, "Unknown({raw:#x})"),
+        }
     }
 }
 
